@@ -637,12 +637,60 @@ enum RenderNodeInfo {
     Sup(Vec<RenderNode>),
 }
 
+impl RenderNodeInfo {
+    /// Remove and return all the child nodes.
+    fn take_children(&mut self) -> Vec<RenderNode> {
+        use RenderNodeInfo::*;
+        fn from_rows(rows: &mut [RenderTableRow]) -> Vec<RenderNode> {
+            rows.iter_mut()
+                .flat_map(|row| row.cells.iter_mut())
+                .flat_map(|cell| std::mem::take(&mut cell.content))
+                .collect()
+        }
+        match self {
+            Text(_) | Img(_, _) | Break | FragStart(_) => Vec::new(),
+            Container(v)
+            | Link(_, v)
+            | Em(v)
+            | Strong(v)
+            | Strikeout(v)
+            | Code(v)
+            | Block(v)
+            | Header(_, v)
+            | Div(v)
+            | BlockQuote(v)
+            | Ul(v)
+            | Ol(_, v)
+            | Dl(v)
+            | Dt(v)
+            | Dd(v)
+            | ListItem(v)
+            | Sup(v) => std::mem::take(v),
+            Table(tab) => from_rows(&mut tab.rows),
+            TableBody(rows) => from_rows(rows),
+            TableRow(row, _) => from_rows(std::slice::from_mut(row)),
+            TableCell(cell) => std::mem::take(&mut cell.content),
+        }
+    }
+}
+
 /// Common fields from a node.
 #[derive(Clone, Debug)]
 struct RenderNode {
     size_estimate: Cell<Option<SizeEstimate>>,
     info: RenderNodeInfo,
     style: ComputedStyle,
+}
+
+impl Drop for RenderNode {
+    fn drop(&mut self) {
+        // Drop the descendants iteratively, so that a deeply nested tree
+        // can't overflow the stack (see also Drop for the DOM Node).
+        let mut nodes = self.info.take_children();
+        while let Some(mut node) = nodes.pop() {
+            nodes.append(&mut node.info.take_children());
+        }
+    }
 }
 
 impl RenderNode {
@@ -667,6 +715,11 @@ impl RenderNode {
     /// Get a size estimate
     fn get_size_estimate(&self) -> SizeEstimate {
         self.size_estimate.get().unwrap()
+    }
+
+    /// Consume the node and return its info.
+    fn into_info(mut self) -> RenderNodeInfo {
+        std::mem::replace(&mut self.info, RenderNodeInfo::Break)
     }
 
     /// Calculate the size of this node.
@@ -1042,10 +1095,11 @@ fn table_to_render_tree<'a, T: Write>(
     pending(input, move |_, rowset| {
         let mut rows = vec![];
         for bodynode in rowset {
-            if let RenderNodeInfo::TableBody(body) = bodynode.info {
-                rows.extend(body);
-            } else {
-                html_trace!("Found in table: {:?}", bodynode.info);
+            match bodynode.into_info() {
+                RenderNodeInfo::TableBody(body) => rows.extend(body),
+                _other => {
+                    html_trace!("Found in table: {:?}", _other);
+                }
             }
         }
         if rows.is_empty() {
@@ -1069,11 +1123,12 @@ fn tbody_to_render_tree<'a, T: Write>(
         let mut rows = rowchildren
             .into_iter()
             .flat_map(|rownode| {
-                if let RenderNodeInfo::TableRow(row, _) = rownode.info {
-                    Some(row)
-                } else {
-                    html_trace!("  [[tbody child: {:?}]]", rownode);
-                    None
+                match rownode.into_info() {
+                    RenderNodeInfo::TableRow(row, _) => Some(row),
+                    _other => {
+                        html_trace!("  [[tbody child: {:?}]]", _other);
+                        None
+                    }
                 }
             })
             .collect::<Vec<_>>();
@@ -1122,11 +1177,12 @@ fn tr_to_render_tree<'a, T: Write>(
         let cells = cellnodes
             .into_iter()
             .flat_map(|cellnode| {
-                if let RenderNodeInfo::TableCell(cell) = cellnode.info {
-                    Some(cell)
-                } else {
-                    html_trace!("  [[tr child: {:?}]]", cellnode);
-                    None
+                match cellnode.into_info() {
+                    RenderNodeInfo::TableCell(cell) => Some(cell),
+                    _other => {
+                        html_trace!("  [[tr child: {:?}]]", _other);
+                        None
+                    }
                 }
             })
             .collect();
@@ -1948,7 +2004,7 @@ fn do_render_node<T: Write, D: TextDecorator>(
 
     let pushed_style = PushedStyleInfo::apply(renderer, &tree.style);
 
-    Ok(match tree.info {
+    Ok(match tree.into_info() {
         Text(ref tstr) => {
             renderer.add_inline_text(tstr)?;
             pushed_style.unwind(renderer);
